@@ -746,6 +746,12 @@ class Interp:
                     env["objs"][p["id"]] = nm
                     if "&&" in p["type"]:
                         moved.append(nm)
+                if f["name"] == IMG + "swap" and not self.exchanges_allocators(f):
+                    # the instantiated swap leaves the allocators in place (C++17, propagate_on_container_swap false): its precondition
+                    # -- BOOST_ASSERT(_alloc == img._alloc) in the source, [container.requirements.general] for the standard containers --
+                    # is that they compare equal. Internal callers get no such help: a swap of unequal allocators shows up as I4 at their exit.
+                    for p, kind in var:
+                        st.eq.add(frozenset({"A_this", "A_" + (p["name"] or "arg")}))
                 st.trace = ["entry this=%s %s" % (tk, ",".join("%s=%s" % ((p["name"] or "arg"), k) for p, k in var))]
                 self.cur_root = fkey(f)
                 self.depth = 0
@@ -762,6 +768,25 @@ class Interp:
                         # after the destructor nothing of this may stay live
                     self.check_exit(s, "exceptional" if oc == "throw" else "normal", survivors, moved if not is_dtor else ())
         return n_paths
+
+    @staticmethod
+    def exchanges_allocators(f):
+        from . import rules as R
+
+        def live(n):
+            """the statements of n that are part of the instantiation (the discarded arm of an `if constexpr` is not)"""
+            if isinstance(n, dict):
+                if n.get("k") == "If" and n.get("constexpr") and "const" in (n.get("cond") or {}):
+                    taken = n.get("then") if str(n["cond"]["const"]) not in ("0", "false") else n.get("else")
+                    yield from live(taken)
+                    return
+                yield n
+                for v in n.values():
+                    yield from live(v)
+            elif isinstance(n, list):
+                for v in n:
+                    yield from live(v)
+        return any(x.get("k") == "Call" and len(re.findall(r"\b_alloc\b", R.key(x))) >= 2 and "swap" in ((x.get("callee") or {}).get("name") or "") for x in live(f["body"]))
 
     def exec_root(self, f, env, st):
         self.depth = 0
